@@ -287,7 +287,7 @@ const OTHER: [&str; 3] = ["a", "b", "c"];
 
 fn draw_layout_raw(d: &mut Dice, allow_bt: bool) -> Layout {
     let named = d.chance(50);
-    let n = d.weighted(&[1, 3, 6, 5]);
+    let n = d.weighted(&[1, 4, 6, 5]);
     let mut fields = vec![];
     let mut have_source = false;
     let mut have_bt_name = false;
@@ -306,7 +306,7 @@ fn draw_layout_raw(d: &mut Dice, allow_bt: bool) -> Layout {
             String::new()
         };
         let attr = [At::None, At::Ignore, At::Source, At::NotSource, At::NotBacktrace, At::Backtrace, At::BtSource]
-            [d.weighted(&[7, 5, 3, 2, 1, if allow_bt { 2 } else { 0 }, if allow_bt { 1 } else { 0 }])];
+            [d.weighted(&[7, 4, 3, 2, 1, if allow_bt { 2 } else { 0 }, if allow_bt { 1 } else { 0 }])];
         let cls = [Cls::Err, Cls::Plain, Cls::Bt][d.weighted(&[7, 3, if allow_bt { 3 } else { 1 }])];
         fields.push(Fl { name, attr, cls });
     }
@@ -346,8 +346,13 @@ fn has_backtrace(l: &Layout) -> bool {
 /// Draws a layout of the positive domain. `want_bt`: the layout must have a backtrace (nightly shard).
 fn draw_layout(d: &mut Dice, allow_bt: bool, want_bt: bool, is_enum: bool, excluded: &mut u64) -> Layout {
     for _ in 0..12 {
-        let mut l = if d.chance(30) { steer_ignore_before(d, allow_bt) } else { draw_layout_raw(d, allow_bt) };
+        let mut l = if d.chance(13) { steer_ignore_before(d, allow_bt) } else { draw_layout_raw(d, allow_bt) };
         // struct-level `ignore` is only grounded in the repository's tests for structs without field attributes
+        if !is_enum && l.ignored && !l.fields.is_empty() && d.chance(60) {
+            for f in l.fields.iter_mut() {
+                f.attr = At::None;
+            }
+        }
         if !is_enum && l.ignored && (l.fields.is_empty() || l.fields.iter().any(|f| f.attr != At::None)) {
             l.ignored = false;
         }
@@ -1371,6 +1376,7 @@ fn confirm_negatives_inproc(p: &DiceProp, ctx: &Ctx, rep: &mut Report) {
     let mut confirmed = 0u64;
     for t in draw(&mut runner, &strat, n) {
         let c = t.current();
+        rep.evidence.add("excluded_by_construction", c.meta["excluded_draws"].as_u64().unwrap_or(0));
         if c.expect_compile {
             continue;
         }
